@@ -299,7 +299,7 @@ fn main() {
             cfg.vis.own_use = *rng.pick(&[0.0f32, 0.3, 0.6]);
             cfg.vis.own_collect = if cfg.vis.own_use == 0.0 { *rng.pick(&[0.3f32, 0.6]) } else { *rng.pick(&[0.0f32, 0.3]) };
             let w = WorldOpts { scenes: 1 + rng.usize(3), same_region: rng.chance(0.5), preset: *rng.pick(&["crowd", "convoy", "crossing", "random"]), rotated: rng.chance(0.3), features: true, feat_dim: 3,
-                duplicates: false, nobj: 2 + rng.usize(5), steps: 30, low_quality: false, avoid_coincident: true, low_conf: false };
+                duplicates: false, nobj: 2 + rng.usize(5), steps: 30, low_quality: false, avoid_coincident: true, low_conf: false, vary_nobj: false };
             let h = HistOpts { len: 10 + rng.usize(15), lifecycle_ops: false, clear_wasted: false, auto_waste_ops: false, batches: kind.is_batch(), empty_calls: false };
             let ops = gen_history(&mut rng, &w, &h);
             let mut trk = AnyTracker::new(&cfg);
